@@ -304,7 +304,7 @@ def main(chk):
                 'Gaussian covariance and sample moments in the tangent plane; image-based sources on square and non-square images (pixel occupancy ∝ value, empty pixel stays empty); '
                 'interior pixels against build_intensity_map of the same object. non-trivial = |dec| > 30°, rmin/rmax > 0.3, non-square image')
     chk.assumptions = TRUSTED
-    chk.lean(['IxpeVerif.Props.C16', 'IxpeVerif.Props.StateAudit'], GEN)
+    chk.lean(['IxpeVerif.Props.C16', 'IxpeVerif.Props.Audit.C16'], GEN)
     corr_gen.run(chk, GEN, n=200 if chk.tier == 'quick' else 3000, tag='C16', rtol=1e-10, atol=1e-10)
     explore(chk)
     return chk.finish(level='proof', trusted=TRUSTED, search=lambda k: explore(chk, 4))
